@@ -395,6 +395,8 @@ def impl_inc(case, world):
 
 def oracle_inc(case, io):
     how = case.get('how')
+    if '"include"' not in json.dumps([d['raw'] for d in case['docs']]):
+        return None          # (shrunk) no include node left: outside the family
     log = io['cfg'].get('log', [])
     if how == 'none':
         if 'ok' not in io['cfg']:
